@@ -13,14 +13,29 @@ import (
 
 var typeIDs = map[string]int64{}
 
+// typeID: positive for types defined in the module (or pointers to them),
+// negative for all others (dynamic types of foreign values are negative).
 func typeID(t types.Type) int64 {
 	k := typeName(t)
 	if id, ok := typeIDs[k]; ok {
 		return id
 	}
 	id := int64(len(typeIDs) + 1)
+	if !moduleType(t) {
+		id = -id - 1000
+	}
 	typeIDs[k] = id
 	return id
+}
+
+func moduleType(t types.Type) bool {
+	if p, ok := t.(*types.Pointer); ok {
+		return moduleType(p.Elem())
+	}
+	if n, ok := t.(*types.Named); ok && n.Obj().Pkg() != nil {
+		return strings.HasPrefix(n.Obj().Pkg().Path(), modPath)
+	}
+	return false
 }
 
 // makeInterface boxes a concrete value. Pointers and other single-handle
@@ -47,8 +62,18 @@ func (x *Exec) makeInterface(st *State, v Value, it types.Type) Value {
 	}
 	x.assumeTrue(Lt(h, Num(0)))
 	x.assumeTrue(Eq(App("dyntype", SInt, h), Num(typeID(v.T))))
+	x.assumeTrue(Not(App("perr", SBool, h)))
 	if _, isPtr := v.T.Underlying().(*types.Pointer); isPtr {
 		x.boxed[h] = v
+	}
+	if id := typeID(v.T); id > 0 {
+		// a module value used as an error wraps nothing (no Unwrap methods in the module):
+		// errors.As finds exactly its own type in it
+		tb := BVar("t?bx", SInt)
+		x.assumeNeed("AsT", Forall([]*Term{tb}, Implies(Gt(tb, Num(0)), Eq(App("AsT", SBool, h, tb), Eq(tb, Num(id)))), App("AsT", SBool, h, tb)))
+		// ... and errors.Is matches it only with itself (no Is/Unwrap methods either)
+		ti := BVar("t?bi", SInt)
+		x.assumeNeed("Is", Forall([]*Term{ti}, Eq(App("Is", SBool, h, ti), Eq(ti, h)), App("Is", SBool, h, ti)))
 	}
 	for k, c := range Flatten(v.T) {
 		x.assumeTrue(Eq(App(fmt.Sprintf("unbox.%s.%d", tn, k), c.Sort, h), v.C[k]))
@@ -117,12 +142,33 @@ func (x *Exec) mapInit(st *State, mt *types.Map, ref *Term) {
 	st.setRegion("map.len", Store(st.region("map.len", sArrII), ref, Num(0)))
 }
 
+// mapInvTerm: the declared content invariant of the map field the operand was loaded from.
+func (f *frame) mapInvTerm(mv ssa.Value, v Value, n *node, st *State) *Term {
+	fld := chanField(mv)
+	if fld == "" {
+		return TTrue
+	}
+	var out []*Term
+	for _, mi := range f.x.S.MapInvs {
+		if mi.Field != fld {
+			continue
+		}
+		sc := f.x.newSpecCtx(f, n, st, f.x.entryState)
+		sc.vars[mi.Var] = v
+		out = append(out, sc.evalBool(mi.C.Expr))
+	}
+	return And(out...)
+}
+
 func (f *frame) mapUpdate(i *ssa.MapUpdate, n *node, st *State) {
 	x := f.x
 	m := f.get(i.Map, n, st)
 	mt := m.T.Underlying().(*types.Map)
 	k := mapKeyTerm(x, f.get(i.Key, n, st))
 	v := f.get(i.Value, n, st)
+	if g := f.mapInvTerm(i.Map, v, n, st); !g.IsTrue() {
+		x.oblige("mapinv", nil, st.pc, g, i.Pos(), "value stored satisfies the map's content invariant")
+	}
 	ref := m.One()
 	x.oblige("nilmap", nil, st.pc, Ne(ref, Num(0)), i.Pos(), "assignment to entry in nil map")
 	has, vals, comps := mapRegions(mt)
@@ -167,6 +213,13 @@ func (f *frame) lookup(i *ssa.Lookup, n *node, st *State) {
 	}
 	x.assumeTrue(WFValue(val))
 	x.assumeTrue(Le(Num(0), Select(st.region("map.len", sArrII), ref)))
+	{
+		raw := Value{T: mt.Elem(), C: make([]*Term, len(comps))}
+		for j, c := range comps {
+			raw.C[j] = Select(Select(st.region(vals[j], SArr(SArr(c.Sort))), ref), k)
+		}
+		x.assume(st.pc, Implies(present, f.mapInvTerm(i.X, raw, n, st)), "map content invariant")
+	}
 	if i.CommaOk {
 		f.setReg(i, n.Ctx, Value{T: i.Type(), C: append(append([]*Term{}, val.C...), present)})
 		return
@@ -583,7 +636,7 @@ func (x *Exec) isClosable(v ssa.Value) bool {
 // onClosed: rely facts declared for a receive that found the channel closed.
 func (f *frame) onClosed(chv ssa.Value, ok *Term, n *node, st *State) {
 	c := f.x.C
-	if c == nil || len(c.OnClosed) == 0 {
+	if c == nil || (len(c.OnClosed) == 0 && len(c.OnOpen) == 0) {
 		return
 	}
 	fld := chanField(chv)
@@ -594,5 +647,10 @@ func (f *frame) onClosed(chv ssa.Value, ok *Term, n *node, st *State) {
 		sc := f.x.newSpecCtx(f, n, st, f.x.entryState)
 		f.x.assume(And(st.pc, Not(ok)), sc.evalBool(cl.Expr), "rely: "+cl.Text)
 		f.x.note("rely: when " + fld + " is found closed: " + cl.Text)
+	}
+	for _, cl := range c.OnOpen[fld] {
+		sc := f.x.newSpecCtx(f, n, st, f.x.entryState)
+		f.x.assume(And(st.pc, ok), sc.evalBool(cl.Expr), "rely: "+cl.Text)
+		f.x.note("rely: when a value was received from " + fld + ": " + cl.Text)
 	}
 }
